@@ -323,6 +323,10 @@ class Fates:
             k = int(kind[3:]) if len(kind) > 3 else rng.choice([2, 2, 3, 4])
             self.counts["dup"] += 1
             out = [(d() + i * 1e-4, alt, False) for i in range(k)]
+        elif isinstance(kind, str) and kind.startswith("late:"):
+            # forced fate: this datagram is held back for the given number of seconds
+            self.counts["delayed"] += 1
+            out = [(base + float(kind[5:]), alt, False)]
         else:
             out = [(d(), alt, False)]
         if p.get("corrupt_first", 0.0) and rng.random() < p["corrupt_first"]:
